@@ -3,7 +3,7 @@ import io, contextlib
 from common import *
 
 LEVEL = 'proof'
-RULE = ('all writer formats x store basis/versions (a sample: 14 entries in quick, 90 in thorough) with their own descriptions / revision texts, and the same bases with '
+RULE = ('all writer formats x store basis/versions (a sample: 14 entries in quick, 50 in thorough) with their own descriptions / revision texts, and the same bases with '
         'generated descriptions, revision texts and names containing newlines, Unicode line separators, comment markers, section keywords and long words; '
         'one case = (basis, format, description variant). Non-trivial = distinct headed text.')
 ASSUMPTIONS = ['textwrap.fill is a parameter of the theorem (any function); that it keeps the characters of the name/role/version is validated here, not proved']
@@ -141,7 +141,7 @@ def work(item):
 def run(ctx):
     bse = import_bse()
     R = Result('C14')
-    pairs = sample_pairs(ctx, ctx.n(14, 90), heavy=False)      # thorough: 90 entries x their descriptions x 30 formats (the whole store takes hours and tens of GB of text)
+    pairs = sample_pairs(ctx, ctx.n(14, 50), heavy=False)      # thorough: 50 entries x their descriptions x 30 formats (the whole store takes hours and tens of GB of text)
     items = [(n, v, '%s-%d' % (n, ctx.seed)) for n, v in pairs]
     reqs, meta = [], []
     ntraces = 0
